@@ -705,7 +705,8 @@ def sqrt_scalar(ctx, x):
     else:
         s = SQRT(xr)
         _sqrt_cache[key] = s
-    ctx.assume(z3.Implies(xr >= 0, z3.And(s >= 0, s * s == xr)))
+    # nonlinear: given to the prover with every obligation, kept out of the explorer's feasibility queries
+    ctx.assume(z3.Implies(xr >= 0, z3.And(s >= 0, s * s == xr)), axiom=True)
     return s
 
 
